@@ -92,6 +92,16 @@ theorem C14_roundtrip (o : Oracles) (vk vg : Bytes → Prop) (l : Laws o vk vg) 
       decodeUint_encodeUint _ he, decodeAddresses_encode o vk vg l as has,
       decodeByteSeq_encodeByteSeq ps (fun p hp => (hps p hp).1), map_normBig_id ps hps]
 
+/-- **No two events share a wire form.**  Two event values the application can emit that produce the same ABCI
+    event (type and attributes) are the same value: nothing a keyper reads can stand for two different things
+    shuttermint wrote.  (A corollary of the round trip: the reader is a left inverse of the writer.) -/
+theorem C14_injective (o : Oracles) (vk vg : Bytes → Prop) (l : Laws o vk vg) (e₁ e₂ : Ev)
+    (h₁ : WF vk vg e₁) (h₂ : WF vk vg e₂) (h : makeABCI o e₁ = makeABCI o e₂) : e₁ = e₂ := by
+  have r₁ := C14_roundtrip o vk vg l e₁ h₁
+  have r₂ := C14_roundtrip o vk vg l e₂ h₂
+  rw [h, r₂] at r₁
+  exact (Option.some.inj r₁).symm
+
 /-- **Integers are never mis-read.**  Whatever text the integer decoder accepts denotes the number it
     returns, below 2^64; anything else is an error (`none`), e.g. the empty string, signs, spaces. -/
 theorem C14_uint_strict (s : List Char) (n : Nat) (h : decodeUint s = some n) :
